@@ -146,6 +146,22 @@ Definition dns_query (id flags : N) (encoded_name : bytes) (qtype qclass : N) : 
   ++ [hi8 qtype; lo8 qtype; hi8 qclass; lo8 qclass].
 
 (* group addresses with their RFC 1112 MACs (since fixes fcbed9b, df36fdf) *)
+(* What dnsmessage accepts as a question name (x/net v0.34.0 NewName + Name.pack): at most 254 bytes, not empty,
+   ending in '.', and either the root "." or segments of 1..63 bytes between the dots.  Anything else makes
+   Pack (or, for more than 255 bytes, NewName — an error since fix 71d97b6, a panic before) fail: nothing is sent. *)
+Fixpoint dot_segments (s cur : bytes) : list bytes :=
+  match s with
+  | [] => match cur with [] => [] | _ => [rev cur] end
+  | x :: r => if x =? 46 then rev cur :: dot_segments r [] else dot_segments r (x :: cur)
+  end.
+Definition is_root (name : bytes) : bool := match name with [x] => x =? 46 | _ => false end.
+Definition seg_ok (l : bytes) : bool := Nat.leb 1 (List.length l) && Nat.leb (List.length l) 63.
+Definition dns_pack_ok (name : bytes) : bool :=
+  Nat.leb (List.length name) 254 && negb (Nat.eqb (List.length name) 0) && (last name 0 =? 46)
+  && (is_root name || forallb seg_ok (dot_segments name [])).
+(* the root packs as the single zero byte *)
+Definition dns_wire_name (name : bytes) : bytes := if is_root name then [0] else dns_name name.
+
 Definition mdns_ip4_addr : addr := ([1; 0; 94; 0; 0; 251], [224; 0; 0; 251]).
 Definition llmnr_ip4_addr : addr := ([1; 0; 94; 0; 0; 252], [224; 0; 0; 252]).
 Definition ssdp_ip4_addr : addr := ([1; 0; 94; 127; 255; 250], [239; 255; 255; 250]).
@@ -186,9 +202,13 @@ Definition send_mdns (c : cfg) (buf : bytes) (src dst : addr) (port : N) : res (
 (* mdns.go:78 SendMDNSQuery(name): type ALL(255) class ANY(255); :86 SendLLMNRQuery: type PTR(12)
    (sendMDNSQuery uses its mtype argument since fix fcbed9b) *)
 Definition send_mdns_query (c : cfg) (name : bytes) : res (list bytes) :=
-  send_mdns c (dns_query 0 0 (dns_name name) 255 255) (host_mac c, host_ip4 c) mdns_ip4_addr 5353.
+  if dns_pack_ok name
+  then send_mdns c (dns_query 0 0 (dns_wire_name name) 255 255) (host_mac c, host_ip4 c) mdns_ip4_addr 5353
+  else Ok [].
 Definition send_llmnr_query (c : cfg) (name : bytes) : res (list bytes) :=
-  send_mdns c (dns_query 0 0 (dns_name name) 12 255) (host_mac c, host_ip4 c) llmnr_ip4_addr 5355.
+  if dns_pack_ok name
+  then send_mdns c (dns_query 0 0 (dns_wire_name name) 12 255) (host_mac c, host_ip4 c) llmnr_ip4_addr 5355
+  else Ok [].
 
 (* nbns.go:50 encodeNBNSName *)
 Definition nbns_pad (name : bytes) : bytes :=
@@ -201,7 +221,9 @@ Definition nbns_name (name : bytes) : bytes :=
 Definition send_nbns (c : cfg) (src dst : addr) (p : bytes) (junk : bytes) : res (list bytes) :=
   udp4_send (host_mac c) (a_mac dst) 255 (a_ip src) (a_ip dst) 137 137 p junk.
 (* nbns.go:122 SendNBNSQuery / :133 SendNBNSNodeStatus; seq = the package counter after ++ *)
+(* since fix 6d50a23 a name of more than 16 bytes is refused (it was truncated to 15 bytes + space) *)
 Definition send_nbns_query (c : cfg) (src dst : addr) (seq : N) (name : bytes) (junk : bytes) : res (list bytes) :=
+  if Nat.ltb 16 (List.length name) then Ok [] else
   send_nbns c src dst (dns_query seq 0 (nbns_name name) 32 1) junk.
 Definition nbns_star : bytes := [42] ++ repeat 32 15.
 Definition send_nbns_node_status (c : cfg) (seq : N) (junk : bytes) : res (list bytes) :=
